@@ -438,6 +438,22 @@ func (e *reuseEngine) Generate(seed uint64, tier string, run int) (json.RawMessa
 		}
 		c.Ops = append(c.Ops, op)
 		switch k {
+		case "prepare":
+			if rg.Chance(0.35) {
+				// a paragraph abandoned after one or two lines, then another one prepared on the same
+				// wrapper whose first lines are narrower than its first word: whatever the breaker
+				// remembered about the abandoned paragraph meets a forced break
+				for i := rg.Range(1, 2); i > 0; i-- {
+					c.Ops = append(c.Ops, ReuseOp{K: "nextline", F: f, N: rg.Range(40, 400)})
+				}
+				op2 := op
+				op2.Text = string(genText(rg, runes, maxLen))
+				op2.E = len([]rune(op2.Text))
+				c.Ops = append(c.Ops, op2)
+				for i := rg.Range(1, 3); i > 0; i-- {
+					c.Ops = append(c.Ops, ReuseOp{K: "nextline", F: f, N: rg.Range(1, 60)})
+				}
+			}
 		case "faceq":
 			lastFaceq[f] = op
 		case "facevar", "facecoords", "faceppem":
